@@ -37,11 +37,14 @@ theorem k_getStandardUPCEANChecksum_body1 (s : List Nat) (hs : ∀ b ∈ s, b < 
   rw [idx_ofNat _ _ h, e]
   have e8 : ((2 : Int) ^ 8) = 256 := by decide
   simp only [tryC, gDigit, wrap, e8]
-  by_cases c : (48 : Int) ≤ v ∧ (v : Int) ≤ 57
-  · have h1 : ((v : Int) - 48) % 256 = v - 48 := by omega
-    simp [c, h1]; omega
-  · have h1 : ((v : Int) - 48) % 256 > 9 := by omega
-    simp [c, h1]
+  -- shape-robust: decide the model's digit test, then split the GENERATED test and let omega sort the
+  -- branches (no dependence on the order / form of the Go comparisons or of the addition)
+  by_cases c : (48 : Int) ≤ v ∧ (v : Int) ≤ 57 <;> simp only [c, if_true, if_false] <;> split <;> rename_i hc <;>
+    (try simp only [Bool.or_eq_true, Bool.and_eq_true, decide_eq_true_eq, Bool.not_eq_true', decide_eq_false_iff_not] at hc) <;>
+    first
+    | (exfalso; omega)
+    | rfl
+    | (congr 1; omega)
 
 when_kernel Gzx.Gen.K10.getStandardUPCEANChecksum in
 theorem k_getStandardUPCEANChecksum_body2 (s : List Nat) (hs : ∀ b ∈ s, b < 256)
@@ -52,11 +55,14 @@ theorem k_getStandardUPCEANChecksum_body2 (s : List Nat) (hs : ∀ b ∈ s, b < 
   rw [idx_ofNat _ _ h, e]
   have e8 : ((2 : Int) ^ 8) = 256 := by decide
   simp only [tryC, gDigit, wrap, e8]
-  by_cases c : (48 : Int) ≤ v ∧ (v : Int) ≤ 57
-  · have h1 : ((v : Int) - 48) % 256 = v - 48 := by omega
-    simp [c, h1]; omega
-  · have h1 : ((v : Int) - 48) % 256 > 9 := by omega
-    simp [c, h1]
+  -- shape-robust: decide the model's digit test, then split the GENERATED test and let omega sort the
+  -- branches (no dependence on the order / form of the Go comparisons or of the addition)
+  by_cases c : (48 : Int) ≤ v ∧ (v : Int) ≤ 57 <;> simp only [c, if_true, if_false] <;> split <;> rename_i hc <;>
+    (try simp only [Bool.or_eq_true, Bool.and_eq_true, decide_eq_true_eq, Bool.not_eq_true', decide_eq_false_iff_not] at hc) <;>
+    first
+    | (exfalso; omega)
+    | rfl
+    | (congr 1; omega)
 
 when_kernel Gzx.Gen.K10.getStandardUPCEANChecksum in
 /-- `upceanReader_getStandardUPCEANChecksum(s)` = the model's `eanChecksumB s`, for EVERY byte string:
